@@ -242,8 +242,15 @@ class Walker:
             return env
         if isinstance(st, ast.Assign) and len(st.targets) == 1 and self.helper_of(st.value) is not None:
             tgt = st.targets[0]
+            n0 = len(self.sites)
             out = self.inline(st.value, env)
             if out is not None:
+                # `return lib.f(...)` inside the helper: the call's results are what the caller binds (same table as `x = lib.f(...)`)
+                if len(out) == 1 and self.depth == 0:
+                    names = [ast.unparse(e) for e in tgt.elts] if isinstance(tgt, (ast.Tuple, ast.List)) else [ast.unparse(tgt)]
+                    for site in self.sites[n0:]:
+                        if site["ret"] == ["<returned>"] and ast.unparse(out[0]) == f"{site['callee']}[{site['idx']}]#all":
+                            site["ret"] = names
                 if isinstance(tgt, (ast.Tuple, ast.List)):
                     if len(out) == len(tgt.elts):
                         for e, v in zip(tgt.elts, out):
@@ -289,6 +296,12 @@ class Walker:
                 self.pos += 1
                 self.stores.append((ast.unparse(tgt), canon(val, env), self.pos))
                 return env
+            if isinstance(tgt, ast.Name) and isinstance(val, ast.Call) and canon(val.func, {}).endswith(("Result", "ResultCls")) and val.keywords and not val.args:
+                # `res = ResultCls(field=...)` ... `return res`: recorded at the return like `return ResultCls(field=...)`
+                self.ctor_locals = getattr(self, "ctor_locals", {})
+                self.ctor_locals[tgt.id] = ("return " + canon(val.func, {}), [(kw.arg or "**", canon(kw.value, env)) for kw in val.keywords])
+                env[tgt.id] = ast.Name(id=f"<{canon(val.func, {})} object>", ctx=ast.Load())
+                return env
             if isinstance(tgt, ast.Name):
                 if simple(val):
                     env[tgt.id] = Sub(env).visit(copy.deepcopy(val))
@@ -322,6 +335,12 @@ class Walker:
                 else:
                     out[name] = ast.Name(id=f"if({test}){{{sa}}}else{{{sb}}}"[:MAXLEN], ctx=ast.Load())
             return out
+        if isinstance(st, ast.Return) and isinstance(st.value, ast.Name) and st.value.id in getattr(self, "ctor_locals", {}) \
+                and ast.unparse(env.get(st.value.id, st.value)).endswith(" object>"):
+            callee, bind = self.ctor_locals[st.value.id]
+            self.pos += 1
+            self.sites.append({"cls": self.cls, "method": self.method, "callee": callee, "idx": 0, "bind": bind, "ret": [], "pos": self.pos})
+            return env
         if isinstance(st, ast.Return) and isinstance(st.value, ast.Call):
             self.pos += 1
             bind = [(kw.arg or "**", canon(kw.value, env)) for kw in st.value.keywords]
@@ -435,7 +454,8 @@ def translate(repo):
             helpers = dict(modfuncs)
             for name, m in methods_of(c.name).items():
                 if name not in WALKED and not (name.startswith("__") and name.endswith("__")) and not name.startswith("plot"):
-                    helpers["self." + name] = (m, True)
+                    is_static = any(isinstance(d, ast.Name) and d.id == "staticmethod" for d in m.decorator_list)
+                    helpers["self." + name] = (m, not is_static)  # a @staticmethod has no `self` parameter to drop
             for m in c.body:
                 if isinstance(m, ast.FunctionDef) and (m.name in WALKED or m.name.startswith("plot")):
                     w = Walker(sigs, c.name, m.name, helpers)
